@@ -571,7 +571,7 @@ def iite(c, a, b):
 class XR:
     """extended real with NaN.  nan/pinf/ninf: bool|z3 Bool (at most one true); v: Fraction|z3 Real (meaningful iff finite).
     npk: True when the value is a numpy scalar/array element (division by zero follows IEEE instead of raising)."""
-    __slots__ = ("nan", "pinf", "ninf", "v", "npk")
+    __slots__ = ("nan", "pinf", "ninf", "v", "npk", "int_of", "recip_of")
 
     def __init__(self, v, nan=False, pinf=False, ninf=False, npk=False):
         self.v = v
@@ -579,6 +579,8 @@ class XR:
         self.pinf = pinf
         self.ninf = ninf
         self.npk = npk
+        self.int_of = None      # the integer term this value was converted from (exact)
+        self.recip_of = None    # the value whose reciprocal this is (1/(1/c) = c in the exact model)
 
     # constructors
     @staticmethod
@@ -586,7 +588,9 @@ class XR:
         if isinstance(c, XR):
             return c
         if isinstance(c, SInt):
-            return XR(zr(c.t), npk=npk)
+            r = XR(zr(c.t), npk=npk)
+            r.int_of = c
+            return r
         if isinstance(c, bool):
             return XR(Fraction(int(c)), npk=npk)
         if isinstance(c, (int, Fraction)):
@@ -715,6 +719,8 @@ def xmul(a, b):
 def xdiv_np(a, b):
     """IEEE-style division (numpy operands): x/0 = +-inf, 0/0 = nan, x/inf = 0 (zeros unsigned)"""
     a, b = xr(a), xr(b)
+    if a.is_const() and a.fin() is True and a.v == 1 and b.recip_of is not None:
+        return b.recip_of          # 1/(1/c) = c for finite non-zero c (exact arithmetic)
     bz = b.zero()
     if b.fin() is True:
         bz = ff(bz)        # division by a finite term the hypotheses show to be nonzero: no special values arise
@@ -729,7 +735,10 @@ def xdiv_np(a, b):
     ninf = band(bnot(nan), bor(band(inf_from_zero, a.neg_()),
                                band(inf_from_a, bor(band(a.pinf, b.neg_()), band(a.ninf, b.pos())))))
     v = rite(binf, Fraction(0), rdiv(a.v, b.v) if not _isF(bz) else rdiv_nz(a.v, b.v))
-    return mkxr(v, nan, pinf, ninf, True)
+    r = mkxr(v, nan, pinf, ninf, True)
+    if a.is_const() and a.fin() is True and a.v == 1 and b.fin() is True and _isF(bz):
+        r.recip_of = b
+    return r
 
 
 def xdiv(a, b):
@@ -737,12 +746,19 @@ def xdiv(a, b):
     a, b = xr(a), xr(b)
     if a.npk or b.npk:
         return xdiv_np(a, b)
+    if a.is_const() and a.fin() is True and a.v == 1 and b.recip_of is not None:
+        return b.recip_of
     bz = b.zero()
     if not _isF(bz):
         if ctx().decide(bz):
             raise PyRaise("ZeroDivisionError", "float division by zero")
     r = xdiv_np(a, b)
-    r.npk = False
+    if r.recip_of is None and r.int_of is None:
+        r.npk = False
+    else:
+        r2 = XR(r.v, r.nan, r.pinf, r.ninf, False)
+        r2.recip_of, r2.int_of = r.recip_of, r.int_of
+        r = r2
     return r
 
 
